@@ -31,6 +31,9 @@ let h_buffer args : fail list =
   match args with
   | A _kind :: rest ->
     let st = ref init in
+    (* the memory-level model (BufMem.v): heap of arrays + the struct; the capacity chosen by the
+       Go runtime for a slice grown by append inside the scanner is taken from the observation *)
+    let mh = ref [] and mc = ref cinit and mem_ok = ref true in
     let out = ref [] in
     let rawok = ref true and rawls = ref true in
     let stop = ref false in
@@ -38,7 +41,7 @@ let h_buffer args : fail list =
     let nsteps = ref 0 in
     List.iter (fun item ->
       match item with
-      | L [A "step"; o; res; L [A "st"; ibuf; ivu; imode; iopen]] when not !stop ->
+      | L [A "step"; o; res; L (A "st" :: ibuf :: ivu :: imode :: iopen :: icap)] when not !stop ->
         incr nsteps;
         let o' = op_of_sexp o in
         (* RawOK bookkeeping (same predicate as the theorems' hypothesis) *)
@@ -84,6 +87,23 @@ let h_buffer args : fail list =
                Printf.sprintf "state after %s (step %d): model=%s impl=(st %s %s %s %s)" (Sexp.to_string o) !nsteps
                  (state_str st') (atom ibuf) (atom ivu) (atom imode) (atom iopen)));
            if not same then stop := true;
+           (* memory level: no out-of-range slice expression, same bytes as the list-level model, same capacity *)
+           (match icap with
+            | [cp] when !mem_ok && same ->
+              let ecap = nat_of_int (int_atom cp) in
+              (match cstep ecap !mh !mc o' with
+               | None ->
+                 mem_ok := false;
+                 add [ { tag = "K:bufmem"; msg = "memory-level model: slice expression out of range at " ^ Sexp.to_string o } ]
+               | Some ((h', c'), _) ->
+                 let ab = cabs h' c' in
+                 let okm = ab.buf = st'.buf && ab.validUntil = st'.validUntil && ab.bmode = st'.bmode && ab.markerOpen = st'.markerOpen in
+                 let okc = int_of_nat (ccap h' c') = int_atom cp in
+                 add (k "bufmem" okm (fun () -> "memory-level model disagrees with the list-level model after " ^ Sexp.to_string o));
+                 add (k "bufmem" okc (fun () -> Printf.sprintf "capacity after %s (step %d): model=%d impl=%s" (Sexp.to_string o) !nsteps (int_of_nat (ccap h' c')) (atom cp)));
+                 if not (okm && okc) then mem_ok := false;
+                 mh := h'; mc := c')
+            | _ -> ());
            (* the invariant the C01/C03 theorems rest on, evaluated on the model state
               (= the implementation state when same) *)
            if !rawok then add (k "inv" (invb st') (fun () -> "invariant invb false after " ^ Sexp.to_string o ^ ": " ^ state_str st'));
